@@ -99,7 +99,7 @@ Definition r_at_gate (s : rstate) (x : nat) : bool :=
     end
   else
     match nth_error (rtasks s) (x - N) with
-    | Some tk => match tst tk with TSpawned => false | _ => true end
+    | Some tk => match tst tk with TSpawned | TReleased => false | _ => true end
     | None => true
     end.
 
@@ -112,7 +112,7 @@ Definition r_statuses (s : rstate) : list (Z * Z) :=
                              end
                  end) (rthreads s) ++
   map (fun tk => match tst tk with
-                 | TSpawned => (1, 0)%Z
+                 | TSpawned | TReleased => (1, 0)%Z
                  | TRunning => (3, 0)%Z
                  | TDone => (2, 0)%Z
                  end) (rtasks s).
